@@ -88,11 +88,44 @@ def int_lower_bound(e, op, X):
     return None
 
 
+READ_ONLY_KINDS = {'len', 'read-slice', 'read-item'}
+
+
+def resolve_passed_whole(prog, fn, uses, depth=0):
+    """A list handed whole to another package function is as harmless as what that function does
+    with it: replace each 'passed-whole' use by the callee's uses of the corresponding parameter
+    (recursively, depth-limited).  Read-only helpers (len, slicing, indexing, handing on to other
+    read-only helpers) become 'read-by-helper'; anything else keeps the callee's kind."""
+    out = []
+    pm = parent_map(fn.node)
+    for kind, n in uses:
+        if kind != 'passed-whole' or depth > 3:
+            out.append((kind, n))
+            continue
+        call = pm.get(n)
+        kind_t, tgt = prog.resolve_call(fn, call)
+        if kind_t != 'func':
+            out.append((kind, n))
+            continue
+        idx = call.args.index(n)
+        params = tgt.params[1:] if tgt.cls is not None and tgt.params[:1] == ['self'] else tgt.params
+        if idx >= len(params):
+            out.append((kind, n))
+            continue
+        inner = resolve_passed_whole(prog, tgt, classify_uses(tgt, params[idx]), depth + 1)
+        if all(k in READ_ONLY_KINDS or k == 'read-by-helper' for k, _ in inner):
+            out.append(('read-by-helper', n))
+        else:
+            worst = [k for k, _ in inner if k not in READ_ONLY_KINDS and k != 'read-by-helper']
+            out.append(('helper:%s:%s' % (tgt.name, worst[0]), n))
+    return out
+
+
 def check_effects(ck, prog, fn, f_pred):
     param = fn.params[0]
-    uses = classify_uses(fn, param)
+    uses = resolve_passed_whole(prog, fn, classify_uses(fn, param))
     ck.saw('uses_of_vertex_list', [(k, n.lineno) for k, n in uses])
-    allowed = {'len', 'read-slice', 'delete'}
+    allowed = {'len', 'read-slice', 'delete', 'read-by-helper'}
     n_del = 0
     for kind, n in uses:
         ok = kind in allowed
